@@ -749,16 +749,14 @@ def replay(case):
         sc = tuple(case["scenario"])
         problems, out_obs = run_scenario(sc)
         return {"ok": not problems, "problems": repr(problems)[:3000], "runs": out_obs}
+    # function level: run the same check again for these specifications and look for this evaluation time
     res = Shard()
-    now = dt.datetime.fromisoformat(case["now"])
+    res.MAX_FAIL = 10**9
     specs = case["specs"]
-    got = impl_next(specs, now)
-    wants = [oracle_next(s, now)[0] for s in specs]
-    want = min((t for t in wants if t is not None), default=None)
-    nxt = got[0] if isinstance(got, tuple) and len(got) == 2 else got
-    ok = nxt == want or (isinstance(nxt, dt.datetime) and want is not None and cal.real(nxt) == cal.real(want))
-    if got == ("exc", "CroniterBadDateError") and want is None:
-        ok = True
-    if ok and case["part"] == "fn" and spec_kind(specs[0]) == "cron" and want is not None:
-        ok = abs((got[1] - now).total_seconds() - (cal.real(want) - cal.real(now)).total_seconds()) <= 1e-9
-    return {"ok": bool(ok), "specs": specs, "now": case["now"], "expected": repr(want), "observed": repr(got)}
+    if case["part"] == "fn-list":
+        check_list(res, specs)
+    else:
+        check_single(res, specs[0], "thorough")
+    same = [f for f in res.failures if f["case"].get("now") == case["now"] and f["case"].get("part") == case["part"]]
+    return {"ok": not same, "specs": specs, "now": case["now"],
+            "failures": [{"sig": f["sig"], "expected": repr(f.get("expected")), "observed": repr(f.get("observed"))} for f in same[:3]]}
